@@ -151,6 +151,7 @@ type C04Val struct {
 // back to it.
 func c04ValCheck(c *C04Val) (msg string, cyclic bool, discard string) {
 	src := c.Case.Source()
+	defer inflight("C04", "value", c, src)()
 	o := run.InProc(src, c.Case.inFiles(), nil, run.Opts{Budget: implBudget, WantRoot: c.Kind == "root"})
 	rf, _ := c.Case.refFiles()
 	rr := ref.Run(ref.Config{Prog: c.Case.Prog, Files: rf, Excl: excl})
@@ -340,7 +341,7 @@ func TestC04(t *testing.T) {
 		maxDepth = 12
 	}
 	cliEvery := 50
-	check(rec, "document-random", scale(10000, 300000), func(rt *rapid.T) {
+	check(rec, "document-random", scale(10000, 3000000), func(rt *rapid.T) {
 		o := gen.DocOpts{Depth: rapid.IntRange(0, maxDepth).Draw(rt, "depth"), MaxItems: 4, AnyKeys: true,
 			ForceEmpty: rapid.IntRange(0, 2).Draw(rt, "forceempty") == 0}
 		doc := gen.JSONDoc(o).Draw(rt, "doc")
@@ -369,7 +370,7 @@ func TestC04(t *testing.T) {
 		}
 	})
 
-	check(rec, "value-random", scale(6000, 150000), func(rt *rapid.T) {
+	check(rec, "value-random", scale(6000, 1500000), func(rt *rapid.T) {
 		c, labels := genC04Val(rt)
 		msg, cyclic, discard := c04ValCheck(c)
 		if discard != "" {
